@@ -272,6 +272,8 @@ package multiplex
 //@   # what was written is added to the tx counter
 //@   atcall txWait requires wholeMessage: arg0.(int) == len(data)
 //@   atcall Write requires pacedFirst: calls("(Valve).txWait") == 1
+//@   # C01/C05: one message = ONE Write of exactly the bytes handed in (never a part, never twice)
+//@   atcall Write requires theWholeMessage: sameSlice(arg0.([]byte), data) && calls("(net.Conn).Write") == 0
 //@   atcall AddTx requires chargesWhatWasSent: int(arg0.(int64)) == n
 //@   modifies *
 //@   preserves Frame.StreamID, Frame.Seq, Frame.Closing, Frame.Payload, Stream.id, Stream.session, Stream.recvBuf, Session.sb, SessionConfig.MsgOnWireSizeLimit, Session.maxStreamUnitWrite, Session.streamSendBufferSize, Session.connReceiveBufferSize, SessionConfig.Unordered, SessionConfig.Valve, SessionConfig.Singleplex, Obfuscator.payloadCipher, switchboard.session, switchboard.valve, heap(B_Slice)
